@@ -681,6 +681,9 @@ func (t *tScreen) Fini() {
 
 func (t *tScreen) finish() {
 	close(t.quit)
+	t.Lock()
+	t.fini = true
+	t.Unlock()
 	t.finalize()
 }
 
